@@ -283,10 +283,220 @@ theorem stmt14 (hI : Inv a m env) (hk : mkAddress a = .ok h) :
     execStmt (initMeths a) env (S 14) = .ok (.next (rxStage a m h env)) := by
   cases hI
   simp only [S, nthStmt, Src.Address_init]
-  cases m <;> cases ht : a.txOnly <;>
-  simp [execStmt, execBlock, eval, evalArgs, *, modePV, modeName, set_get, rxStage, Mode.hasPrefix,
-    evalBuiltin_rxget, initMeths_rx a h hk]
+  cases ht : a.txOnly
+  · cases m <;>
+    simp [execStmt, execBlock, eval, evalArgs, *, modePV, modeName, set_get, rxStage, Mode.hasPrefix,
+      evalBuiltin_rxget, initMeths_rx a h hk]
+  · simp [execStmt, execBlock, eval, *, rxStage]
+
+/-! value-level facts used by the transmit part -/
+
+theorem py_eq_none (v : PyVal) : v = PyVal.none ↔ v.isNone = true := by
+  cases v <;> simp [PyVal.isNone]
+
+/-- `bytes([v])` for a validated address byte that is present -/
+theorem bytes_single (v : PyVal) (hn : v.isNone = false) (hb : byteOk v = true) :
+    evalBuiltin "bytes" [.list [.py v]] = some (.ok (.bytes [u8 ((optNat v).getD 0)])) := by
+  simp [byteOk, hn] at hb
+  simp [evalBuiltin, bytesOfScs, Sc.isInt, Sc.intVal, hb, optNat, hn, u8]
+
+/-- what the transmit part of the constructor adds -/
+def txStage (a : AddrArgs) (m : Mode) (h : Half) (env : Env) : Env :=
+  if a.rxOnly then env else
+    let e := (env.set "self._tx_arbitration_id_physical" (pint (h.txId .physical))).set
+      "self._tx_arbitration_id_functional" (pint (h.txId .functional))
+    if m.hasPrefix then e.set "self._tx_payload_prefix" (.bytes h.txPrefix) else e
+
+/-- statement 15: `if not self._rx_only:` the two transmit identifiers; the one-byte payload prefix in the Extended / Mixed modes
+    (`bytes([self._target_address])`, resp. `bytes([self._address_extension])`, after an `assert ... is not None`) -/
+theorem stmt15 (hI : Inv a m env) (hm : a.mode = some m) (hk : mkAddress a = .ok h) :
+    execStmt (initMeths a) env (S 15) = .ok (.next (txStage a m h env)) := by
+  obtain ⟨hv, hh⟩ := mkAddress_ok hm hk
+  cases hI
+  simp only [S, nthStmt, Src.Address_init]
+  cases hr : a.rxOnly
+  · cases m <;> simp [validateAddr, hm, presenceOk, hr] at hv <;>
+    simp [execStmt, execBlock, eval, evalArgs, *, modePV, modeName, set_get, txStage, Mode.hasPrefix,
+      evalBuiltin_txget, initMeths_tx a h hk, py_eq_none, bytes_single, Half.txPrefix, mkHalf]
+  · simp [execStmt, execBlock, eval, *, txStage]
+
+/-- the `_is_for_me_*` method the constructor installs as `is_for_me` -/
+def isForMeName : Mode → String
+  | .n11 | .n29 => "_is_for_me_normal"
+  | .e11 | .e29 => "_is_for_me_extended"
+  | .nf29 => "_is_for_me_normal_fixed"
+  | .m11 => "_is_for_me_mixed_11bits"
+  | .m29 => "_is_for_me_mixed_29bits"
+
+/-- statement 16: `if not self._tx_only:` the if / elif chain on the mode doing `setattr(self, 'is_for_me', self._is_for_me_<mode>)`
+    (the final `else: raise RuntimeError` is unreachable: the seven modes are covered) -/
+theorem stmt16 (hI : Inv a m env) :
+    execStmt (initMeths a) env (S 16) =
+      .ok (.next (if a.txOnly then env else env.set "self.is_for_me" (.meth (isForMeName m)))) := by
+  cases hI
+  simp only [S, nthStmt, Src.Address_init]
+  cases ht : a.txOnly
+  · cases m <;>
+    simp [execStmt, execBlock, eval, evalArgs, *, modePV, modeName, isForMeName, evalBuiltin_setattr, initMeths_setattr]
+  · simp [execStmt, execBlock, eval, *]
+
+/-- statement 17: the nested `def not_implemented_func_with_partial(*args, **kwargs): raise NotImplementedError(...)` -/
+theorem stmt17 : execStmt (initMeths a) env (S 17) = .ok (.next (env.set nipName nip)) := by
+  simp only [S, nthStmt, Src.Address_init, execStmt, eval, evalArgs, ok_bind, evalBuiltin_function, initMeths_function]
+  rfl
+
+/-- a transmit-only address: the six receive-side methods are replaced -/
+def rxNip (env : Env) : Env :=
+  ((((((env.set "self.get_rx_arbitration_id" nip).set "self.requires_rx_extension_byte" nip).set
+    "self.get_rx_extension_byte" nip).set "self.is_rx_29bits" nip).set "self.is_for_me" nip).set "self.get_rx_prefix_size" nip)
+
+/-- a receive-only address: the five transmit-side methods are replaced -/
+def txNip (env : Env) : Env :=
+  (((((env.set "self.get_tx_arbitration_id" nip).set "self.requires_tx_extension_byte" nip).set
+    "self.get_tx_extension_byte" nip).set "self.is_tx_29bits" nip).set "self.get_tx_payload_prefix" nip)
+
+/-- statement 18: `if self._tx_only:` six `setattr(self, <receive-side method>, not_implemented_func_with_partial)` -/
+theorem stmt18 (hI : Inv a m env) (hn : env nipName = some nip) :
+    execStmt (initMeths a) env (S 18) = .ok (.next (if a.txOnly then rxNip env else env)) := by
+  cases hI
+  simp only [S, nthStmt, Src.Address_init]
+  simp only [nipName] at hn
+  cases ht : a.txOnly
+  · simp [execStmt, execBlock, eval, *]
+  · simp [execStmt, execBlock, eval, evalArgs, *, set_get, evalBuiltin_setattr, initMeths_setattr, rxNip]
+
+/-- statement 19: `if self._rx_only:` five `setattr(self, <transmit-side method>, not_implemented_func_with_partial)` -/
+theorem stmt19 (hI : Inv a m env) (hn : env nipName = some nip) :
+    execStmt (initMeths a) env (S 19) = .ok (.next (if a.rxOnly then txNip env else env)) := by
+  cases hI
+  simp only [S, nthStmt, Src.Address_init]
+  simp only [nipName] at hn
+  cases ht : a.rxOnly
+  · simp [execStmt, execBlock, eval, *]
+  · simp [execStmt, execBlock, eval, evalArgs, *, set_get, evalBuiltin_setattr, initMeths_setattr, txNip]
 
 end stmts
+
+/-! ## Chaining -/
+
+section chain
+variable (a : AddrArgs) (m : Mode) (h : Half)
+
+def idsStage (a : AddrArgs) (m : Mode) (env : Env) : Env := if m = .nf29 ∨ m = .m29 then setIds a m env else env
+
+/-- the environment in which `self.validate()` is called -/
+def env11 (a : AddrArgs) (m : Mode) : Env := idsStage a m ((env8 a m).set "self._is_29bits" (pbool m.is29))
+
+/-- the environment after `self._tx_payload_prefix = bytes(); self._rx_prefix_size = 0` -/
+def env13 (a : AddrArgs) (m : Mode) : Env :=
+  ((env11 a m).set "self._tx_payload_prefix" (.bytes [])).set "self._rx_prefix_size" (pint 0)
+
+def isForMeStage (a : AddrArgs) (m : Mode) (env : Env) : Env :=
+  if a.txOnly then env else env.set "self.is_for_me" (.meth (isForMeName m))
+
+/-- the constructed object (with the locals of the constructor still in the environment) -/
+def finalEnv (a : AddrArgs) (m : Mode) (h : Half) : Env :=
+  let e16 := isForMeStage a m (txStage a m h (rxStage a m h (env13 a m)))
+  let e18 := if a.txOnly then rxNip (e16.set nipName nip) else e16.set nipName nip
+  if a.rxOnly then txNip e18 else e18
+
+theorem Inv.setIds {a : AddrArgs} {m : Mode} {env : Env} (hI : Inv a m env) : Inv a m (setIds a m env) :=
+  (hI.set (by decide) _).set (by decide) _
+
+theorem Inv.idsStage {a : AddrArgs} {m : Mode} {env : Env} (hI : Inv a m env) : Inv a m (idsStage a m env) := by
+  unfold PyAgree.idsStage; split
+  · exact hI.setIds
+  · exact hI
+
+theorem Inv.rxStage {a : AddrArgs} {m : Mode} {env : Env} (hI : Inv a m env) : Inv a m (rxStage a m h env) := by
+  unfold PyAgree.rxStage; split
+  · exact hI
+  · dsimp only; split
+    · exact (((hI.set (by decide) _).set (by decide) _).set (by decide) _)
+    · exact ((hI.set (by decide) _).set (by decide) _)
+
+theorem Inv.txStage {a : AddrArgs} {m : Mode} {env : Env} (hI : Inv a m env) : Inv a m (txStage a m h env) := by
+  unfold PyAgree.txStage; split
+  · exact hI
+  · dsimp only; split
+    · exact (((hI.set (by decide) _).set (by decide) _).set (by decide) _)
+    · exact ((hI.set (by decide) _).set (by decide) _)
+
+theorem Inv.isForMeStage {a : AddrArgs} {m : Mode} {env : Env} (hI : Inv a m env) : Inv a m (isForMeStage a m env) := by
+  unfold PyAgree.isForMeStage; split
+  · exact hI
+  · exact hI.set (by decide) _
+
+theorem Inv.rxNip {a : AddrArgs} {m : Mode} {env : Env} (hI : Inv a m env) : Inv a m (rxNip env) :=
+  ((((((hI.set (by decide) _).set (by decide) _).set (by decide) _).set (by decide) _).set (by decide) _).set (by decide) _)
+
+theorem inv_env11 : Inv a m (env11 a m) := ((inv_env8 a m).set (by decide) _).idsStage
+
+
+/-- statements 9-10 together -/
+theorem stmts9to10 (M : Meths) (env : Env) (hI : Inv a m env) :
+    execBlock M env (R 9) = execBlock M (idsStage a m env) (R 11) := by
+  rw [step_next rfl (stmt9 a m M env hI)]
+  have I10 : Inv a m (if m = .nf29 then setIds a m env else env) := by
+    split
+    · exact hI.setIds
+    · exact hI
+  rw [step_next rfl (stmt10 a m M _ I10)]
+  congr 1
+  cases m <;> simp [idsStage]
+
+/-- statements 0-11: up to and including `self.validate()` -/
+theorem upToValidate :
+    execBlock (initMeths a) (initEnv a m) (R 0) =
+      if validateAddr a then execBlock (initMeths a) (env11 a m) (R 12) else .error (.exc .ValueError) := by
+  rw [stmts0to7]
+  have I8 := inv_env8 a m
+  rw [step_next rfl (stmt8 a m _ _ I8)]
+  have I9 := I8.set (k := "self._is_29bits") (by decide) (pbool m.is29)
+  rw [stmts9to10 a m _ _ I9]
+  cases hv : validateAddr a
+  · have e := stmt11 a (idsStage a m ((env8 a m).set "self._is_29bits" (pbool m.is29)))
+    simp only [hv, Bool.false_eq_true, if_false] at e
+    rw [step_err rfl e]; rfl
+  · have e := stmt11 a (idsStage a m ((env8 a m).set "self._is_29bits" (pbool m.is29)))
+    simp only [hv, if_true] at e
+    rw [step_next rfl e]; rfl
+
+/-- **Rejection**: when `validate` rejects the arguments, so does the constructor (the statements before the call never raise). -/
+theorem Address_init_rejects (_hm : a.mode = some m) (hv : validateAddr a = false) :
+    runFn (initMeths a) (initEnv a m) Src.Address_init = .error (.exc .ValueError) := by
+  have e : execBlock (initMeths a) (initEnv a m) Src.Address_init = .error (.exc .ValueError) := by
+    have := upToValidate a m
+    simp only [hv, Bool.false_eq_true, if_false] at this
+    exact this
+  simp [runFn, e]
+
+/-- statements 12-19: after a successful validation nothing raises any more -/
+theorem afterValidate (hm : a.mode = some m) (hk : mkAddress a = .ok h) :
+    execBlock (initMeths a) (env11 a m) (R 12) = .ok (.next (finalEnv a m h)) := by
+  have I11 := inv_env11 a m
+  rw [step_next rfl (stmt12 _ _)]
+  rw [step_next rfl (stmt13 _ _)]
+  have I13 : Inv a m (env13 a m) := (I11.set (by decide) _).set (by decide) _
+  change execBlock _ (env13 a m) (R 14) = _
+  rw [step_next rfl (stmt14 a m _ h I13 hk)]
+  have I14 := I13.rxStage h
+  rw [step_next rfl (stmt15 a m _ h I14 hm hk)]
+  have I15 := I14.txStage h
+  rw [step_next rfl (stmt16 a m _ I15)]
+  have I16 := I15.isForMeStage
+  rw [step_next rfl (stmt17 a _)]
+  have I17 : Inv a m ((isForMeStage a m (txStage a m h (rxStage a m h (env13 a m)))).set nipName nip) :=
+    I16.set (by decide) _
+  rw [step_next rfl (stmt18 a m _ I17 (by simp [set_get]))]
+  have I18 : Inv a m (if a.txOnly then rxNip ((isForMeStage a m (txStage a m h (rxStage a m h (env13 a m)))).set nipName nip)
+      else (isForMeStage a m (txStage a m h (rxStage a m h (env13 a m)))).set nipName nip) := by
+    split
+    · exact I17.rxNip
+    · exact I17
+  rw [step_next rfl (stmt19 a m _ I18 (by split <;> simp [set_get, rxNip, nipName]))]
+  rfl
+
+end chain
 
 end Isotp.PyAgree
